@@ -67,7 +67,7 @@ def extra(ctx, res):
                 verdict, why = "ok", ""
             res.add("P-ABSENT", v.fi.short, norm(n), "add-if-absent", verdict, why, loc(v.fi, n))
     if not found:
-        raise AnalysisError("TemporalHypergraph.subhypergraph: no add_node call (anchor of P-ABSENT vanished)")
+        res.unknown("P-ABSENT", "TemporalHypergraph.subhypergraph", "h.add_node(node)", "add-if-absent", "no add_node call in the snapshot / window builders themselves (they may delegate)", "hypergraphx/core/temporal_hypergraph.py")
     with res.guard("check_filter_clientsctx, res, DEGREE:2"):
         check_filter_clients(ctx, res, DEGREE[:2])
     return res
